@@ -189,6 +189,9 @@ def run_c05(rep, tier, seed):
             if len(ra.atoms) == len(rb.atoms):
                 ok, why = c05_case(ra, rb, None, st, sc)
                 G["unrelated-pairs"].case(ok, f"{why}: {ra.describe()} vs {rb.describe()}", c05_body(ra, rb, None, st, sc))
+                ok, why, nev = bookkeeping_case(ra, rb, None, st, sc)
+                BK.case(ok, f"unrelated pair: {why}", bookkeeping_body(ra, rb, None, st, sc))
+                BK.n += max(nev - 1, 0)
         for g in G.values():
             g.close()
         BK.close()
